@@ -475,7 +475,7 @@ def run(ctx):
         if qbr:
             builds.append(("release", ctx.run_sharded(qbr, cases + tot_cases)[1]))
     hist, seen, nontrivial = {}, set(), 0
-    disagreements = spec_disagreements = shape_pairs = shape_viol = panics = 0
+    disagreements = spec_disagreements = shape_pairs = shape_viol = panics = model_crashes = 0
     outcome_hist = {}
     reported = 0
 
@@ -504,6 +504,10 @@ def run(ctx):
                         "case": c, "impl": got, "model": m}, False)
                 continue
             if m == "(unmodelled)":
+                continue
+            if m.startswith("(model-crash"):
+                # resource exhaustion of the OCaml driver (not of the code): counted, never a violation
+                model_crashes += 1
                 continue
             if canon(got) != m:
                 disagreements += 1
@@ -547,7 +551,7 @@ def run(ctx):
         "disagreements_checked": disagreements + spec_disagreements + shape_viol + panics,
         "model_vs_impl_disagreements": disagreements, "spec_vs_impl_disagreements": spec_disagreements,
         "shape_independence_pairs_checked_on_real_code": shape_pairs, "shape_independence_violations": shape_viol,
-        "totality_only_evaluations": tot_ok, "real_panics": panics,
+        "totality_only_evaluations": tot_ok, "real_panics": panics, "model_driver_crashes_skipped": model_crashes,
         "per_builtin_cases": hist, "model_outcome_histogram": outcome_hist, "builds": [b for b, _ in builds],
         "corpus_cases": len(corpus),
     })
